@@ -35,7 +35,7 @@ ASSUMPTIONS = ["fair scheduling of the target queue's workers for the 'delivered
 
 M64 = 1 << 64
 KINDS = ["ADD", "OR", "REPLACE"]
-TARGETS = ["serial", "concurrent", "global"]
+TARGETS = ["serial", "concurrent", "global", "overcommit-root(NULL)"]
 
 
 def gen_consts():
@@ -252,7 +252,7 @@ def analyse(text, label, C, runinfo):
                     stats["post_handler_pending_requeue"] += 1
                 if e.kind == 121 and i >= 2 and tr[i - 1].kind == 1 and tr[i - 2].kind == 120:
                     stats["drain_without_latch"] += 1
-            traces.append((info["kind"] + 4 * info["qos"], tr, rd, thr))
+            traces.append((info["kind"], tr, rd, thr))
     return fails, traces, stats
 
 
@@ -262,7 +262,7 @@ def shape(tr):
 
 def correspond(ctx):
     C = gen_consts()
-    nproc, rounds = (9, 9) if ctx.tier == "quick" else (45, 18)
+    nproc, rounds = (9, 12) if ctx.tier == "quick" else (45, 18)
     fails, mism, alltr, total = [], [], [], {}
     for i in range(nproc):
         seed = ctx.seed * 1000 + i
@@ -288,7 +288,7 @@ def correspond(ctx):
     drainers = [x for x in alltr if any(e.kind == 3 for e in x[1])][:2]
     samples = [{"kind_qos": sv, "trace": [e.brief() for e in t][:40]} for (sv, t, _, _, _) in mergers + drainers]
     return {"evaluations": len(alltr), "distinct_nontrivial": distinct,
-            "rule": "custom data sources of kind ADD / OR / REPLACE on serial, concurrent and global target queues; 2..8 pthreads "
+            "rule": "custom data sources of kind ADD / OR / REPLACE on serial, concurrent, global and overcommit-root (NULL) target queues; 2..8 pthreads "
                     "merging random values (ADD: small, random 64-bit and wrap-provoking operands; OR: bits and masks; REPLACE: "
                     "unique values; 1/16 zero), a handler that sleeps/yields on a quarter of its calls each, one thread "
                     "suspending and resuming (depth 1-2), merges racing the activation in half of the rounds; schedule "
